@@ -185,6 +185,11 @@ def run():
                            "walks = TLC random behaviours (one RandomElement-drawn call per step) at the larger bound; "
                            "non-trivial = distinct (state, call) pairs that returned records, deleted rows or changed the table" % emit_cfgs)
         chk.cov["exhaustive"] = True
+        vf.log("C30 summary:", json.dumps({"tier": vf.TIER, "seed": vf.SEED,
+                                           "tlc": [(r["name"], r["generated"], r["distinct"], r["wall_s"]) for r in chk.cov["tlc_runs"]],
+                                           "transitions": {k: v for k, v in chk.cov["replay_transitions"].items() if k != "mismatch_counts"},
+                                           "walks": {k: v for k, v in chk.cov["replay_walks"].items() if k != "mismatch_counts"},
+                                           "nontrivial": chk.cov["distinct_nontrivial"], "candidates": len(chk.cands)}))
         chk.notes.append("exhaustive refers to the transition relation at the MC bound; walks are sampled")
     return chk.finish()
 
@@ -232,14 +237,14 @@ def selftest(chk, sd, binary, walks, bad):
         else:
             s["call"]["reply"] = ["error"] if s["call"]["reply"] != ["error"] else ["ok"]
             path = ".reply"
-        lines.append(b)
-        expect.append((kind, si, path))
+        lines.append({"bi": bi, "steps": b})   # re-run under its original index: same concretisation as in the agreed run
+        expect.append((kind, bi, si, path))
     pth = vf.write_ndjson(os.path.join(sd, "selftest.ndjson"), lines)
     res = run_replay(binary, sd, pth, "selftest")
     got = {(m["behaviour"], m["step"], m["path"]) for m in res.get("mismatches") or []}
-    for i, (kind, si, path) in enumerate(expect):
-        if (i, si, path) not in got:
-            raise vf.NoVerdict("binding self-test failed: perturbed %s at step %d of behaviour %d was not rejected (%s)" % (kind, si, i, sorted(got)))
+    for kind, bi, si, path in expect:
+        if (bi, si, path) not in got:
+            raise vf.NoVerdict("binding self-test failed: perturbed %s at step %d of behaviour %d was not rejected (%s)" % (kind, si, bi, sorted(got)))
     chk.cov["binding_selftest"] = "perturbed Read result, table row, Delete count and reply were each rejected at the perturbed step"
 
 
